@@ -93,6 +93,13 @@ assert _2 in (1,2,3)
 assert _100 not in (1,2,3)
 assert True is True
 assert True is not False
+_t = (1, 2)
+assert _t is _t
+assert not (_t is (1, 3))
+assert (1, 2) is not [1, 2]
+_d = {'a': 1}
+assert _d is _d
+assert {} is not {}
 # FIXME EXC_MATCH
 
 doc="Multiple comparison"
